@@ -31,7 +31,7 @@ func init() {
 			return map[string]int{
 				"commit_delete": 20, "commit_truncate": 20, "commit_persist": 20,
 				"multi_segment": 5, "rollback_after_spill": 5, "late_truncate": 3, "block_cross": 3,
-				"create_from_nothing": 3, "spilled_beyond_commit": 5, "grow_with_unwritten_pages": 10, "ltx_decoded": 100, "lockonly": 3, "tx_events_seen": 50,
+				"create_from_nothing": 3, "mode_roundtrip_truncate": 10, "mode_roundtrip_persist": 10, "spilled_beyond_commit": 5, "grow_with_unwritten_pages": 10, "ltx_decoded": 100, "lockonly": 3, "tx_events_seen": 50,
 			}
 		},
 	})
@@ -308,4 +308,68 @@ func runC02(c *core.Case) {
 		}
 	}
 	_ = ref.ChecksumFlag
+	// epilogue of every fourth history: the application takes the database to WAL
+	// mode and back (`PRAGMA journal_mode=wal; ...; PRAGMA journal_mode=<mode>`).
+	// SQLite keeps a TRUNCATE/PERSIST journal file when it goes to WAL, so the
+	// transaction that returns to the rollback mode OPENS the journal (no create)
+	// on a database LiteFS has marked as WAL; it is a rollback-journal commit like
+	// any other and must be captured as one, and so must those after it.
+	if c.Index%4 != 1 || ps >= 8192 || c.Violated() {
+		return
+	}
+	judge := func(ctx string, prev mon.PosKey, oldImg *ref.Image, res pager.TxResult) bool {
+		detail := map[string]any{"page_size": ps, "sector": sector, "mode": mode, "history": programs, "epilogue": ctx}
+		c.Count("programs", 1)
+		if healthViolations(c, n, ctx, detail) {
+			return false
+		}
+		if res.Err != nil {
+			c.Violate("C02/op-refused/"+res.ErrStep, fmt.Sprintf("LiteFS failed a legal SQLite step %q on a healthy primary: %v (%s)", res.ErrStep, res.Err, ctx), detail)
+			return false
+		}
+		out := judgeLocalTx(c, n, "db", prev, oldImg, d.M, true, ctx, detail)
+		if !out.Advanced && !c.Violated() {
+			c.Violate("C02/commit-not-captured", fmt.Sprintf("position stayed %s although the transaction committed (%s)", prev, ctx), detail)
+		}
+		judgeSeen(c, n, "db", 1, d.M, ctx, detail)
+		judgeRawChecksum(c, n, "db", ctx, detail)
+		return !c.Violated()
+	}
+	prev, oldImg := mon.PosOf(n, "db"), d.M
+	res := conn.RunRollbackTx(pager.RollbackSpec{Mode: mode, Outcome: "commit", NewPageN: d.M.PageN, WALHeader: true})
+	if !judge(fmt.Sprintf("epilogue: %s->wal (page 1 rewritten through the journal)", mode), prev, oldImg, res) {
+		return
+	}
+	if err := conn.OpenWAL(); err != nil {
+		c.Violate("C02/op-refused/open-wal", err.Error(), nil)
+		return
+	}
+	for j := 0; j < 1+c.Rng.IntN(2); j++ {
+		prev, oldImg = mon.PosOf(n, "db"), d.M
+		cur := d.M.PageN
+		ws := pager.WALSpec{NewPageN: cur + uint32(c.Rng.IntN(2)), Outcome: "commit", SplitFrame: true, Frames: []pager.FrameSpec{{Pgno: 1 + uint32(c.Rng.IntN(int(cur)))}}}
+		if ws.NewPageN > cur {
+			ws.Frames = append(ws.Frames, pager.FrameSpec{Pgno: ws.NewPageN}) // a new page is in the log
+		}
+		ws.Frames = append(ws.Frames, pager.FrameSpec{Pgno: 1})
+		res = conn.RunWALTx(ws)
+		if !judge(fmt.Sprintf("epilogue: wal transaction %d", j), prev, oldImg, res) {
+			return
+		}
+	}
+	prev, oldImg = mon.PosOf(n, "db"), d.M
+	res = conn.SwitchToRollback(mode)
+	if !judge(fmt.Sprintf("epilogue: wal->%s over the journal file the mode left behind (page 1 rewritten through the journal)", mode), prev, oldImg, res) {
+		return
+	}
+	c.Count("mode_roundtrip_"+mode, 1)
+	for j := 0; j < 2; j++ {
+		prev, oldImg = mon.PosOf(n, "db"), d.M
+		cur := d.M.PageN
+		res = conn.RunRollbackTx(pager.RollbackSpec{Mode: mode, Outcome: "commit", NewPageN: cur + uint32(c.Rng.IntN(3)), Dirty: []uint32{1 + uint32(c.Rng.IntN(int(cur)))}})
+		if !judge(fmt.Sprintf("epilogue: journal transaction %d after the round trip", j), prev, oldImg, res) {
+			return
+		}
+	}
+	c.Distinct(fmt.Sprintf("roundtrip/%s/ps%d", mode, ps))
 }
